@@ -20,7 +20,7 @@ def forced(ctx, harness, sig_ok_prefix, viol_signature, what):
 
 
 def run_lane(ctx, configs, layer="L-trace lane", what="lane", order_property=False):
-    """configs: list of (threads, ops, serial_only[, chain[, width]]) - chain=1 makes the serial queue target the concurrent one, chain=2 also makes the concurrent queue target a second concurrent queue; width>0 runs the narrow-queue workload (concurrent queue limited to that width, flooded, first item waiting for the last). Returns number of transitions explained.
+    """configs: list of (threads, ops, serial_only[, chain[, width]]) - chain=1 makes the serial queue target the concurrent one, chain=2 also makes the concurrent queue target a second concurrent queue; width>0 runs the narrow-queue workload (width<0: the same width with barrier items and the barrier-exclusion oracle, no item waiting for another) (concurrent queue limited to that width, flooded, first item waiting for the last). Returns number of transitions explained.
     order_property: the calling property is about submission order (C02 / C04): synchronous fast-path overtakes classified
     by the harness as instances of finding F15 are reported (as that finding); the other properties ignore them."""
     h = ctx.harness("tr_lane")
